@@ -221,6 +221,31 @@ func registerIntrinsics(e *Engine) {
 
 	I["fmt.Sprintf"] = func(e *Engine, fr *frame, a []Value) Value { return e.sprintf(a) }
 	I["fmt.Errorf"] = func(e *Engine, fr *frame, a []Value) Value { return e.errorValue(e.sprintf(a)) }
+	I["fmt.Printf"] = func(e *Engine, fr *frame, a []Value) Value {
+		line := e.sprintf(a)
+		e.outV = append(e.outV, line)
+		if s, ok := line.(string); ok {
+			e.out = append(e.out, s)
+		} else {
+			e.out = append(e.out, fmt.Sprint(line))
+		}
+		return Tuple{int64(0), Iface{}}
+	}
+	I["fmt.Print"] = func(e *Engine, fr *frame, a []Value) Value {
+		va := a[0].(Slice)
+		line := e.liftFormat(sliceElems(va), func(nat []interface{}) string { return fmt.Sprint(nat...) })
+		e.outV = append(e.outV, line)
+		if s, ok := line.(string); ok {
+			e.out = append(e.out, s)
+		} else {
+			e.out = append(e.out, fmt.Sprint(line))
+		}
+		return Tuple{int64(0), Iface{}}
+	}
+	I["fmt.Sprint"] = func(e *Engine, fr *frame, a []Value) Value {
+		va := a[0].(Slice)
+		return e.liftFormat(sliceElems(va), func(nat []interface{}) string { return fmt.Sprint(nat...) })
+	}
 	I["fmt.Println"] = func(e *Engine, fr *frame, a []Value) Value {
 		va := a[0].(Slice)
 		line := e.liftFormat(sliceElems(va), func(nat []interface{}) string { return fmt.Sprintln(nat...) })
